@@ -20,6 +20,7 @@ class _Unset:
 
 UNSET = _Unset()
 VA = 'VA'   # stands for fdl.VARARGS in op descriptors
+UNSET_KEY = '<unset>'   # how UNSET is written in state keys / JSON
 
 
 class Invalid(Exception):
@@ -44,13 +45,14 @@ class Model:
       self.V = []
       self.K = {}
     else:
-      self.prefix = [UNSET if v is None else v for v in state[0]]
+      self.prefix = [UNSET if v == UNSET_KEY and isinstance(v, str) else v
+                     for v in state[0]]
       self.V = list(state[1])
       self.K = dict(state[2])
 
   # ---- state
   def key(self):
-    return (tuple(None if v is UNSET else v for v in self.prefix),
+    return (tuple(UNSET_KEY if v is UNSET else v for v in self.prefix),
             tuple(self.V), tuple(self.K.items()))
 
   def copy(self):
